@@ -3,6 +3,7 @@ package rules
 import (
 	"fmt"
 	"go/ast"
+	"go/constant"
 	"go/token"
 	"go/types"
 	"strings"
@@ -23,7 +24,7 @@ func init() {
 				"element exactly when no value variable exists, and a two-variable range over an index-less ranger reaches a no-return error. (C05.pool) pooled rangers: Setup assigns every field, no " +
 				"use after cleanup, objects come from the pool, every pool has a reset discipline. (C05.rangers) each built-in Range advances its cursor exactly once on the non-end path (at most once where it reports the end) " +
 				"and reads the element before advancing. (C05.elseif) `else if` builds an else list holding exactly the nested if without consuming another {{end}}; range does " +
-				"not allow else-if. (C05.truth) every return of isTrue equals v.IsValid() && !v.IsZero() under the facts of its path, so the branch an if chain takes depends on nothing but `valid and not the zero value` (false, 0, \"\", nil). (C05.bind, continued) whether '.' is replaced depends on the number of loop variables only, never on what a variable is called; '.' and the loop variables receive the element unwrapped from its interface, and Runtime.resolve unwraps what it reads from the scope chain (shared with C06.same).",
+				"not allow else-if. (C05.truth) every return of isTrue equals v.IsValid() && !v.IsZero() under the facts of its path, so the branch an if chain takes depends on nothing but `valid and not the zero value` (false, 0, \"\", nil). (C05.bind, continued) whether '.' is replaced depends on the number of loop variables only, never on what a variable is called; '.' and the loop variables receive the element unwrapped from its interface, and Runtime.resolve unwraps what it reads from the scope chain (shared with C06.same). (C05.elseif, path form) along every path of parseControl: the nested if of `else if` is parsed only where else-if is allowed and the token after {{else was seen to be `if`, it is appended to a fresh list that is the else list returned, such a path parses exactly one list of its own, no path treats an allowed `else if` as a plain else, and a plain else exists. (C05.pool custom-first, continued) a path on which the value is known to be a nil value of an interface type is not a path of a value that implements Ranger.",
 			NotDecided:  "ints(a,b) arithmetic, map iteration order, channel blocking, user-defined Rangers, reflect.Value.IsZero itself (trusted: zero value of the kind).",
 			Assumptions: []string{"a Ranger's Range() result is meaningful only until the next call (interface contract)"},
 			Trusted:     commonTrusted,
@@ -666,45 +667,157 @@ func c05elseif(c *an.Ctx) {
 		return
 	}
 	info := f.Info()
-	ok, why := false, "no `else if` branch guarded by allowElseIf && next token is `if`"
-	an.InspectOwn(f, func(n ast.Node) bool {
-		is, isIf := n.(*ast.IfStmt)
-		if !isIf || strings.ReplaceAll(an.Str(is.Cond), " ", "") != "allowElseIf&&t.peek().typ==itemIf" {
-			return true
+	// Path rule.  Along every path through parseControl: the nested if of `else if` is parsed (ifControl) only where
+	// else-if is allowed and the token after {{else was seen to be `if`; it is appended to a fresh list, which is the
+	// else list returned; such a path parses exactly one list of its own (the nested if consumes the one {{end}});
+	// where else-if is allowed and the next token is `if`, no path treats the else as a plain one; and a plain else
+	// (two lists, no nested if) exists.
+	allow := an.Param(f, 0)
+	byVal, _ := itemConsts(p)
+	isPeekIf := func(cond ast.Expr) (eq bool, ok bool) {
+		b, isB := an.Unparen(cond).(*ast.BinaryExpr)
+		if !isB || (b.Op != token.EQL && b.Op != token.NEQ) {
+			return false, false
 		}
-		fresh, nested, consumes := false, false, false
-		ast.Inspect(is.Body, func(m ast.Node) bool {
-			switch x := m.(type) {
-			case *ast.AssignStmt:
-				if an.Str(x.Lhs[0]) == "elseList" && len(x.Rhs) == 1 && an.CalleeName(info, callOf(x.Rhs[0])) == "(*jet.Template).newList" {
-					fresh = true
-				}
-			case *ast.CallExpr:
-				switch an.CalleeName(info, x) {
-				case "(*jet.ListNode).append":
-					if an.Str(an.Receiver(x)) == "elseList" && an.CalleeName(info, callOf(x.Args[0])) == "(*jet.Template).ifControl" {
-						nested = true
-					}
-				case "(*jet.Template).itemList":
-					consumes = true
+		for _, pr := range [][2]ast.Expr{{b.X, b.Y}, {b.Y, b.X}} {
+			tv, has := info.Types[pr[1]]
+			if !has || tv.Value == nil {
+				continue
+			}
+			if v, isInt := constant.Int64Val(constant.ToInt(tv.Value)); !isInt || v != byVal["itemIf"] {
+				continue
+			}
+			sel, isSel := an.Unparen(pr[0]).(*ast.SelectorExpr)
+			if !isSel {
+				continue
+			}
+			if call := callOf(sel.X); call != nil {
+				switch an.CalleeName(info, call) {
+				case "(*jet.Template).peek", "(*jet.Template).peekNonSpace":
+					return b.Op == token.EQL, true
 				}
 			}
-			return true
-		})
-		switch {
-		case !fresh || !nested:
-			why = "`else if` does not build a fresh else list holding exactly the nested if"
-		case consumes:
-			why = "`else if` parses a further list: a second {{end}} is consumed (or required)"
-		default:
-			ok = true
 		}
-		// the plain else branch parses its list up to {{end}}
-		if ok && is.Else == nil {
-			ok, why = false, "no plain else branch"
-		}
-		return true
+		return false, false
+	}
+	bad := ""
+	x := p.NewExplorer(f, an.Hooks{
+		Branch: func(x *an.Explorer, cond ast.Expr, val bool, st *an.State) {
+			branchLeaves(x, cond, val, st, func(e ast.Expr, val bool) {
+				if eq, isPeek := isPeekIf(e); isPeek {
+					if eq == val {
+						st.Set("peek", "if")
+					} else {
+						st.Set("peek", "other")
+					}
+				}
+			})
+		},
+		PreAssign: func(x *an.Explorer, lhs, rhs ast.Expr, stmt ast.Node, st *an.State) {
+			if id, isId := an.Unparen(lhs).(*ast.Ident); isId && rhs != nil {
+				if k, has := x.Key(id); has {
+					if an.CalleeName(info, callOf(rhs)) == "(*jet.Template).newList" {
+						st.Set("fresh:"+k, "1")
+					} else {
+						st.Set("fresh:"+k, "")
+						if st.Get("nestedIn") == k {
+							st.Set("nestedIn", "")
+						}
+					}
+				}
+			}
+		},
+		Call: func(x *an.Explorer, call *ast.CallExpr, st *an.State) {
+			switch an.CalleeName(info, call) {
+			case "(*jet.Template).itemList":
+				st.Add("lists", 1)
+			case "(*jet.Template).ifControl":
+				st.Add("nested", 1)
+				t, known := false, false
+				if allow != nil {
+					for _, id := range identsOf(f, allow) {
+						t, known = x.Truth(id, st)
+						break
+					}
+				}
+				if !(known && t) && bad == "" {
+					bad = "the nested if of `else if` is parsed on a path where else-if is not known to be allowed (range … else must not take it)"
+				}
+				if st.Get("peek") != "if" && bad == "" {
+					bad = "the nested if of `else if` is parsed on a path where the token after {{else was not seen to be `if`"
+				}
+			case "(*jet.ListNode).append":
+				if k, has := x.Key(an.Receiver(call)); has && len(call.Args) == 1 && an.CalleeName(info, callOf(call.Args[0])) == "(*jet.Template).ifControl" {
+					if st.Get("fresh:"+k) != "" {
+						st.Set("nestedIn", k)
+					}
+				}
+			}
+		},
 	})
+	x.Run(nil)
+	c.States += x.Visited
+	if x.Undecided != "" {
+		c.Undecided("C05.elseif", "(*Template).parseControl/else-if", f.Pos(), "%s", x.Undecided)
+		return
+	}
+	var elseRes *types.Var
+	if f.Sig.Results().Len() == 6 {
+		elseRes = f.Sig.Results().At(5)
+	}
+	nNested, nPlain := 0, 0
+	for _, ex := range x.Exits {
+		if ex.Kind != an.ExitReturn {
+			continue
+		}
+		st := ex.State
+		nested, lists := st.Int("nested"), st.Int("lists")
+		switch {
+		case nested > 1:
+			bad = firstNonEmpty(bad, "a path parses more than one nested if for one `else if`")
+		case nested == 1:
+			nNested++
+			if lists != 1 {
+				bad = firstNonEmpty(bad, "`else if` parses a further list: a second {{end}} is consumed (or required)")
+			}
+			// the else list returned is the fresh list holding the nested if
+			var ret ast.Expr
+			if ex.Ret != nil && len(ex.Ret.Results) == 6 {
+				ret = ex.Ret.Results[5]
+			} else if elseRes != nil {
+				for _, id := range identsOf(f, elseRes) {
+					ret = id
+					break
+				}
+			}
+			k, has := "", false
+			if ret != nil {
+				k, has = x.Key(ret)
+			}
+			if !has || st.Get("nestedIn") == "" || st.Get("nestedIn") != k {
+				bad = firstNonEmpty(bad, "`else if` does not build a fresh else list holding exactly the nested if")
+			}
+		default:
+			if lists == 2 {
+				nPlain++
+				t, known := false, false
+				for _, id := range identsOf(f, allow) {
+					t, known = x.Truth(id, st)
+					break
+				}
+				if st.Get("peek") == "if" && known && t {
+					bad = firstNonEmpty(bad, "`else if` is parsed as a plain else although else-if is allowed and the next token is `if`")
+				}
+			}
+		}
+	}
+	ok, why := bad == "", bad
+	if ok && nNested == 0 {
+		ok, why = false, "no `else if` branch guarded by allowElseIf && next token is `if`"
+	}
+	if ok && nPlain == 0 {
+		ok, why = false, "no plain else branch"
+	}
 	c.Check(ok, "C05.elseif", "(*Template).parseControl/else-if", f.Pos(), "`else if` nests an if in a fresh else list and needs only one {{end}}", why)
 	for name, want := range map[string]string{"(*Template).ifControl": "true", "(*Template).rangeControl": "false"} {
 		if g := c.Fn("C05.elseif", name); g != nil {
@@ -717,4 +830,20 @@ func c05elseif(c *an.Ctx) {
 			c.Check(okArg, "C05.elseif", name, g.Pos(), "else-if allowed: "+want, name+" does not call parseControl with allowElseIf = "+want)
 		}
 	}
+}
+
+// identsOf: the identifiers in f's body that refer to object o (in source order).
+func identsOf(f *an.Fn, o types.Object) []*ast.Ident {
+	var out []*ast.Ident
+	if o == nil || f.Body == nil {
+		return nil
+	}
+	info := f.Info()
+	ast.Inspect(f.Body, func(n ast.Node) bool {
+		if id, ok := n.(*ast.Ident); ok && an.ObjOf(info, id) == o {
+			out = append(out, id)
+		}
+		return true
+	})
+	return out
 }
